@@ -522,6 +522,14 @@ class IsaCheck:
         d = self.differs(pcv.bits, sem.pc, care)
         if d != 0:
             self.add(fam_props or ["C07"], f.name, "pc", "PC after %s differs from the manual's" % f.name, d)
+        # the run loop compares all 32 bits of the PC field with the exit address: PC must never carry anything in its upper byte
+        # (where the reference itself leaves the 24-bit range - a relative branch past H'FFFFFF, which the emulator may also report as an
+        # error - nothing is claimed)
+        ref_top0 = bv.is_zero(tuple(sem.pc[24:]))
+        dt = self.differs(tuple(pcv.bits[24:]), (0,) * 8, Mx.AND(care, ref_top0))
+        if dt != 0:
+            self.add(["C13"], f.name, "pc-upper-byte", "after %s the PC field has a non-zero upper byte: the exit test of the run loop (PC == exit address, 32 bits) "
+                     "misses an exit address reached this way" % f.name, dt)
         # (c) ccr
         ccr = cpu.fields[fi["ccr"]].bits
         for i in range(8):
